@@ -232,7 +232,7 @@ func (x *Exec) pureAxiom(fc *FuncContract, fn *ssa.Function) string {
 	if p := fnPkg(fn); p != nil {
 		env.pkg = p.Path()
 	}
-	env.at = fn.Pos()
+	env.at = bodyPos(fn)
 	var binds, as []string
 	for i, n := range names {
 		bn := q("ax:" + n)
